@@ -100,7 +100,8 @@ Inductive act :=
 | ACtl (closing : bool)     (* the control thread calls Flush() / Close() *)
 | ARel                      (* the parked underlying Write is allowed to return *)
 | ADrain                    (* ... and so is every later one, until the consumer parks elsewhere *)
-| ATick.                    (* wait for the periodic flush *)
+| ATick                     (* wait for the periodic flush *)
+| AHold.                    (* let wall-clock time pass (seconds) while nothing is released *)
 
 Inductive ares :=
 | RW (n : Z) (ok : bool)    (* Write returned (n, err == nil) *)
@@ -210,3 +211,36 @@ Fixpoint strip_prefix (h s : list Z) : option (list Z) :=
   end.
 Definition C07_check_pipe_sub (hdr : list Z) (recs : list (list Z)) (strm : list Z) (hung : bool) : bool :=
   negb hung && match strip_prefix hdr strm with Some rest => match_sub recs rest | None => false end.
+
+(* ================= part 5: comparing long byte strings without expanding them ============ *)
+(* Streaming comparison of two run lists; [fuel] >= number of runs of both + 1.  Sound for equality of the
+   expansions (Variant.segs_eqb_sound); used as the fast accepting path for multi-megabyte streams. *)
+Fixpoint segs_eqb (fuel : nat) (x y : list seg) : bool :=
+  match fuel with
+  | O => false
+  | S f =>
+      match x, y with
+      | [], [] => true
+      | (a, n, d) :: x', _ =>
+          if n <=? 0 then segs_eqb f x' y else
+          match y with
+          | [] => false
+          | (b, m, e) :: y' =>
+              if m <=? 0 then segs_eqb f x y' else
+              let k := Z.min n m in
+              if ((a - b) mod 256 =? 0) && ((k =? 1) || ((d - e) mod 256 =? 0))
+              then segs_eqb f (if n - k =? 0 then x' else (a + d * k, n - k, d) :: x')
+                              (if m - k =? 0 then y' else (b + e * k, m - k, e) :: y')
+              else false
+          end
+      | [], (b, m, e) :: y' => if m <=? 0 then segs_eqb f [] y' else false
+      end
+  end.
+
+(* ================= part 6: several formats open on one channel, Flush / SetPause between batches ======= *)
+(* For one output file: its reference header, the records written (in order), and for every return of
+   DataPublisher.Flush / SetPause the number of records written so far with the file's contents then.
+   (Plain files, at most a few dozen records between flushes: the queue of 1000 cannot fill, so every
+   record is accepted and the file must hold ALL of them when the call returns.) *)
+Definition C07_check_flush (hdr : list Z) (recs : list (list Z)) (snaps : list (Z * list Z)) : bool :=
+  forallb (fun ns => zlist_eqb (snd ns) (hdr ++ concat (zfirstn (fst ns) recs))) snaps.
